@@ -92,21 +92,33 @@ package config
 //@ func mergeStringMaps props=C08,C06
 //@   requires dest != nil && TreeInv() && depth(src) == depth(dest)
 //@   ensures#tree TreeInv()
-//@   ensures#domain forall k string :: (k in dest) <==> (old(k in dest) || (k in src))
+//@   ensures#domain forall k string :: (k in dest) <==> (old(k in dest) || old(k in src))
 //@   ensures#keep forall k string :: old(k in dest) ==> dest[k] == old(dest[k])
-//@   ensures#take forall k string :: (k in src) && !old(k in dest) ==> dest[k] == old(src[k])
-//@   ensures#frame forall m map[string]any, k string :: m != dest && depth(m) <= depth(dest) ==> ((k in m) <==> old(k in m)) && m[k] == old(m[k])
+//@   ensures#take forall k string :: old(k in src) && !old(k in dest) ==> dest[k] == old(src[k])
+//@   ensures#frame forall m map[string]any :: m != dest && depth(m) <= depth(dest) ==> unchanged(m)
 //@   loop 0: invariant TreeInv()
 //@   loop 0: invariant#domain forall k string :: (k in dest) <==> (old(k in dest) || (old(k in src) && $visited[k]))
 //@   loop 0: invariant#keep forall k string :: old(k in dest) ==> dest[k] == old(dest[k])
 //@   loop 0: invariant#take forall k string :: old(k in src) && $visited[k] && !old(k in dest) ==> dest[k] == old(src[k])
-//@   loop 0: invariant#frame forall m map[string]any, k string :: m != dest && depth(m) <= depth(dest) ==> ((k in m) <==> old(k in m)) && m[k] == old(m[k])
+//@   loop 0: invariant#frame forall m map[string]any :: m != dest && depth(m) <= depth(dest) ==> unchanged(m)
 //@   loop 0: invariant#self src == dest ==> (forall k string :: ((k in dest) <==> old(k in dest)) && dest[k] == old(dest[k]))
 //@   assigns maps(map[string]any)
 
-// mergeConfigs walks Config by reflection; until the reflection is resolved statically
-// (DESIGN.md 3.5) its contract is assumed, not proved, and is listed as such in the evidence.
+// mergeConfigs walks Config by reflection. The reflection is resolved statically by the
+// verifier (reflect.Value as a compile-time descriptor, the field loop unrolled over Config's
+// actual fields from go/types), so the real body is verified, field by field:
+// "the effective value of every parameter is the value set at the most specific level that sets it".
+//   topmaps(c): the map[string]any parameters are top-level trees (ghost depth 0).
+//@ define topmaps(c *Config) bool = (c.TemplateData != nil ==> depth(c.TemplateData) == 0) && (c.Anchors != nil ==> depth(c.Anchors) == 0)
+//@ define ghostFresh() bool = forall r map[string]any :: !allocated(r) ==> depth(r) == 0
 //@ func mergeConfigs props=C08
-//@   trusted
-//@   requires dest != nil
+//@   requires dest != nil && allPtrFieldsSet(src) && TreeInv() && ghostFresh() && topmaps(dest)
+//@   requires depth(src.TemplateData) == 0 && depth(src.Anchors) == 0
+//@   requires (dest.Anchors != nil ==> dest.Anchors != dest.TemplateData && dest.Anchors != src.TemplateData) && (dest.TemplateData != nil ==> dest.TemplateData != src.Anchors)
+//@   ensures#ptr fieldwise(ptr, src, dest)
+//@   ensures#zeroable fieldwise(zeroable, src, dest)
+//@   ensures#strmap fieldwise(strmap, src, dest)
+//@   ensures#wf allPtrFieldsSet(dest)
+//@   ensures#tree TreeInv() && ghostFresh() && topmaps(dest) && dest.TemplateData != nil && dest.Anchors != nil
+//@   ensures#siblings forall m map[string]any :: old(allocated(m)) && depth(m) <= 0 && m != old(dest.TemplateData) && m != old(dest.Anchors) ==> unchanged(m)
 //@   assigns *dest, maps(map[string]any), fresh
